@@ -145,6 +145,10 @@ type Net struct {
 	OnConnect func(l *Link) RawEnd
 	// Seg decides how a write of n bytes is cut into segments and delayed (nil = one segment, LatMin).
 	Seg func(p *Pipe, n int) []SegPlan
+	// Coalesce decides whether the bytes of a write join the segment that is still in flight ahead of
+	// them (TCP is a byte stream: two writes made in quick succession may well reach the reader in one
+	// read). nil = never. Only consulted for a write that Seg leaves whole and undelayed.
+	Coalesce func(p *Pipe) bool
 	// ShortRead may shorten a read that could return avail bytes (nil = return everything asked).
 	ShortRead func(avail int) int
 	// WriteFault may inject a torn write: return (k>=0, err) to accept only k bytes and fail.
@@ -755,6 +759,12 @@ func (p *Pipe) enqueue(b []byte) {
 	if p.n.Seg != nil {
 		plans = p.n.Seg(p, len(b))
 	}
+	if k := len(p.segs); p.n.Coalesce != nil && k > 0 && !p.segs[k-1].fin && !p.stalled && len(plans) == 1 && plans[0].Delay <= p.n.LatMin && p.n.Coalesce(p) {
+		p.segs[k-1].data = append(p.segs[k-1].data, b...)
+		p.infl += len(b)
+
+		return
+	}
 	now := p.n.W.Now()
 	at := p.last
 	if at < now {
@@ -881,8 +891,12 @@ func (l *Link) Send(chunks ...Chunk) {
 
 			continue
 		}
-		at += c.Delay
-		p.segs = append(p.segs, segment{data: append([]byte(nil), c.Data...), at: at})
+		if k := len(p.segs); l.N.Coalesce != nil && k > 0 && !p.segs[k-1].fin && !p.stalled && c.Delay <= l.N.LatMin && l.N.Coalesce(p) {
+			p.segs[k-1].data = append(p.segs[k-1].data, c.Data...)
+		} else {
+			at += c.Delay
+			p.segs = append(p.segs, segment{data: append([]byte(nil), c.Data...), at: at})
+		}
 		p.infl += len(c.Data)
 		p.Written += len(c.Data)
 		p.WMarks = append(p.WMarks, Mark{p.Written, now})
